@@ -52,12 +52,31 @@ func culprit(b *shape.Built, q [3]float64, size float64) (string, string) {
 			continue
 		}
 		detail := fmt.Sprintf("sub-program %s at mapped point %v: Evaluate=%v reference=%v", e.N, e.P, got, e.Val)
-		if e.N.Op == "union2" && e.N.S == "" {
-			// the 2D union prunes operands by bounding-box distance: recognise the class
-			// "a dropped operand would have been the minimum; inside/outside unaffected"
+		if (e.N.Op == "union2" && e.N.S == "") || e.N.Op == "multi2" || e.N.Op == "lineof2" {
+			// the 2D union (also behind Multi2D / LineOf2D) prunes operands by bounding-box distance:
+			// recognise the class "a dropped operand would have been the minimum; inside/outside unaffected"
+			var kidVals []float64
+			switch e.N.Op {
+			case "union2":
+				for _, k := range e.N.K {
+					kidVals = append(kidVals, b.EvalNode(k, e.P))
+				}
+			case "multi2":
+				for i := 0; i+1 < len(e.N.P); i += 2 {
+					kidVals = append(kidVals, b.EvalNode(e.N.K[0], [3]float64{e.P[0] - e.N.P[i], e.P[1] - e.N.P[i+1], 0}))
+				}
+			default:
+				m := float64(len(e.N.S))
+				for i, c := range e.N.S {
+					if c == 'x' {
+						f := float64(i) / m
+						kidVals = append(kidVals, b.EvalNode(e.N.K[0], [3]float64{e.P[0] - (e.N.P[0] + f*(e.N.P[2]-e.N.P[0])), e.P[1] - (e.N.P[1] + f*(e.N.P[3]-e.N.P[1])), 0}))
+					}
+				}
+			}
 			isKid := false
-			for _, k := range e.N.K {
-				if kv := b.EvalNode(k, e.P); math.Abs(kv-got) <= tolFor(e.P[:], size, kv) {
+			for _, kv := range kidVals {
+				if math.Abs(kv-got) <= tolFor(e.P[:], size, kv) {
 					isKid = true
 				}
 			}
